@@ -3,7 +3,7 @@
 def V(variant, shards, scale=1.0, env=None, args=()):
     return dict(variant=variant, shards=shards, scale=scale, env=env, args=list(args))
 
-ALG = ["algebra/main.cpp", "algebra/c01.cpp", "algebra/c13.cpp", "algebra/stubs.cpp"]
+ALG = ["algebra/main.cpp"] + ["algebra/c%s.cpp" % n for n in ("01", "02", "03", "06", "11", "12", "13")]
 
 PROPS = {
     "C01": dict(
@@ -25,5 +25,57 @@ PROPS = {
         floors=dict(quick={"factory.NegProjector": 20, "factory.PosProjector": 20, "factory.Generator": 90, "factory.Projector": 20, "pos_plus_neg": 15},
                     thorough={"factory.NegProjector": 20, "pos_plus_neg": 15}),
         assumptions=["PosProjector/NegProjector reject k=d themselves, so k=d is not judged"],
+    ),
+    "C02": dict(
+        harness="h_algebra", sources=ALG, level="exploration",
+        variants=dict(quick=[V("asan", 6, 0.5), V("opt", 6)], thorough=[V("asan", 8, 0.5), V("opt", 6), V("optavx", 2)]),
+        rule="exhaustive part: all 2274 ordered generator pairs (d=2..6) for iCommutator, ACommutator and the scalar product, each also with a weighted "
+             "generator against a dense partner; random part: pairs from the 11 value classes with magnitudes up to 1e+-70, plus antisymmetry/symmetry, "
+             "bilinearity and Tr(A i[A,B])=0 monitors. distinct_nontrivial = distinct generator pairs + distinct random pairs whose operands are both non-trivial.",
+        floors=dict(quick={"pairs.generator": 2274, "pairs.random": 5000}, thorough={"pairs.generator": 2274, "pairs.random": 200000}),
+        assumptions=["reference: dense products in long double", "tolerance 256*eps*d*|A|max*|B|max"],
+    ),
+    "C03": dict(
+        harness="h_algebra", sources=ALG, level="exploration",
+        variants=dict(quick=[V("asan", 6, 0.5), V("opt", 6)], thorough=[V("asan", 8, 0.5), V("opt", 6), V("optavx", 2)]),
+        rule="random (d, diagonal H class, A class, t class): H from 10 diagonal classes (dense, zero, identity-only, fully/partially/nearly degenerate, integer, "
+             "1e3..1e8, 1e-12..1e-3, single diagonal generator), t in {0, +-1e-12..1e-6, O(1), +-1..100, +-1e5..1e7, +-1e11..1e13, small integers}; monitors: direct form vs "
+             "diag-phase conjugation, t=0 identity, diagonal components bitwise fixed, two-step form on an exact-size heap table, second vector on the same table, scalar product, "
+             "group law. distinct_nontrivial = distinct (H,A,t) with non-trivial A.",
+        floors=dict(quick={"H.fully-degenerate": 300, "H.zero": 300, "tclass.0": 500, "tclass.5": 500, "dim.2": 1000, "dim.6": 1000}, thorough={"tclass.5": 20000}),
+        assumptions=["cases whose phase resolution eps*W*|t| exceeds 5% are counted (vacuous_phase_resolution) and only the exact invariants are judged on them"],
+    ),
+    "C06": dict(
+        harness="h_algebra", sources=ALG, level="exploration",
+        variants=dict(quick=[V("asan", 8, 0.5), V("opt", 6)], thorough=[V("asan", 8, 0.5), V("opt", 6), V("optavx", 2)]),
+        rule="exhaustive part: each of the 35 plane-rotation kernels x 12 special thetas x 12 special deltas (0, +-pi/2, +-pi, 2pi+x, -x, pi/4, 1e-9, 1, 3, 500.25) on a generator and a "
+             "dense vector; Const: every index pair in 0..8 x 0..8; random part: angle/phase sets (all planes / single plane / real mixing) x value classes: mixing matrix vs ordered "
+             "product, unitarity, RotateToB1/B0, Rotate(U)/UTransform(U)/UDaggerTransform(U) with the library's U and with Haar unitaries, invariants, both WeightedRotation overloads.",
+        floors=dict(quick={"cells.kernel_x_special_angles": 5040, "const.admitted": 15, "const.rejected": 66, "haar_unitaries": 2000, "weighted_rotations": 2000},
+                    thorough={"cells.kernel_x_special_angles": 5040, "haar_unitaries": 50000}),
+        assumptions=["reference: R(i,i)=R(j,j)=cos(theta), R(i,j)=sin(theta)exp(-i delta), R(j,i)=-conj(R(i,j)); U = product with each later plane multiplied from the left"],
+    ),
+    "C11": dict(
+        harness="h_algebra", sources=ALG, level="exploration",
+        variants=dict(quick=[V("asan", 8, 0.5), V("opt", 6)], thorough=[V("asan", 8, 0.5), V("opt", 6), V("optavx", 2)]),
+        rule="pair order learned per dimension from the plain table (must be a bijection onto level pairs); five monitors in rotation: threshold averaging (flags and entries), "
+             "LowPassFilter, AvgRampFilter (factor 1 / ramp / 0, rejection of wide ramps), interval average (entry-wise vs exact average incl. omega=0, finiteness, Evolve(buffer) vs "
+             "time average), averaged GetExpectationValue/GetExpectationValueD on a solver object. A quarter of the cases come from an exactly representable family (integer levels "
+             "and times) so that 'exceeds' is judged at equality; otherwise comparisons within rounding of a threshold are counted as borderline and skipped.",
+        floors=dict(quick={"threshold.flagged": 1000, "threshold.kept": 1000, "threshold.exactly_at_scale": 50, "ramp.inside": 500, "ramp.zero": 500, "ramp.one": 500,
+                           "ramp_wider_than_cutoff": 100, "interval.pair_judged": 1000, "interval.evolve_judged": 200, "expectation.node_form": 200, "expectation.interpolated_form": 500,
+                           "cases_with_coincident_levels": 1000},
+                    thorough={"threshold.exactly_at_scale": 1000, "interval.pair_judged": 20000}),
+        assumptions=["time intervals with |omega*dt| so small that the documented closed form loses more than 1e-3 are skipped (counted as interval.ill_conditioned_skipped)"],
+    ),
+    "C12": dict(
+        harness="h_algebra", sources=ALG, level="exploration",
+        variants=dict(quick=[V("asan", 8, 0.5), V("opt", 6)], thorough=[V("asan", 8, 0.5), V("opt", 6), V("optavx", 2)]),
+        rule="exhaustive part: every single generator, every projector, every rank-k projector and the zero matrix for d=2..6, ordered and unordered; random part (half of it in "
+             "d=3): value classes and ten structure modifiers (one vanishing off-diagonal entry, off-diagonal part scaled by 1e-2..1e-14, prescribed gaps 1e-2..1e-14, whole matrix "
+             "scaled by 1e+-20..100, single/two generators, projectors, diagonal, identity multiples). Judged: finite, |MV-VL|<=1e-9|M|, |V^dag V-1|<=1e-9, ascending when requested, "
+             "trace and square-sum of eigenvalues.",
+        floors=dict(quick={"fixed.structured": 150, "dim.3": 5000, "dim.2": 500, "dim.6": 500, "mod.one-offdiagonal-entry-zeroed": 500}, thorough={"dim.3": 100000}),
+        assumptions=["tolerance is absolute 1e-9 relative to |M|max: the claim is 'a valid decomposition', not last-bit accuracy"],
     ),
 }
